@@ -39,6 +39,7 @@ fn gen(seed: u64) -> PlanTwin {
         if i.n > 8 {
             i.n = 2 + rng.below(7) as u8;
         }
+        crate::inst::pick_xof(rng, &mut i);
         i
     };
     let m1 = model::gen_meas(&inst, rng);
@@ -121,11 +122,12 @@ impl<'a> Visitor for TwinVis<'a> {
             }
             // public share: joint-randomness parts of the helpers (1..n-1) are unchanged
             if p.inst.has_joint_rand() {
-                if p1.len() != 32 * n || p2.len() != 32 * n {
+                let ss = p.inst.seed_size();
+                if p1.len() != ss * n || p2.len() != ss * n {
                     return Err("unexpected public share length".into());
                 }
                 for j in 1..n {
-                    if p1[32 * j..32 * j + 32] != p2[32 * j..32 * j + 32] {
+                    if p1[ss * j..ss * j + ss] != p2[ss * j..ss * j + ss] {
                         ctx.fail(Violation::new("C17.helper", format!("prio3|helper_jr_part|{}", p.inst.class), format!("helper {j}'s joint-randomness part changes with the measurement")));
                     }
                 }
